@@ -553,7 +553,7 @@ const SENTINELS: &[&str] = &["SENTRES", "sentinel-log-level", "sentcounter", "sp
 
 fn valid_params(rng: &mut Rng, ty: &str, eval_hang_ok: bool, rot: &mut u32) -> Option<Json> {
     let v = match ty {
-        "events.tail" | "events" | "faults" => json!({"limit": rng.range(0, 9)}),
+        "events.tail" | "events" | "faults" => json!({"limit": *rng.pick(&[0u64, 1, 3, 9, 1 << 31, 1 << 32, (1 << 53) + 1, u64::MAX])}),
         "hmi.values.get" => {
             if rng.bool() {
                 json!({"ids": [SPEED_POINT]})
@@ -561,8 +561,8 @@ fn valid_params(rng: &mut Rng, ty: &str, eval_hang_ok: bool, rot: &mut u32) -> O
                 return None;
             }
         }
-        "hmi.trends.get" => json!({"duration_ms": 60000, "buckets": 24}),
-        "hmi.alarms.get" => json!({"limit": 10}),
+        "hmi.trends.get" => json!({"duration_ms": *rng.pick(&[60000u64, 0, 1, u64::MAX]), "buckets": *rng.pick(&[24u64, 0, 1, 1 << 32, u64::MAX])}),
+        "hmi.alarms.get" => json!({"limit": *rng.pick(&[10u64, 0, 1 << 32, u64::MAX])}),
         "hmi.alarm.ack" => json!({"id": "$ALARM"}),
         "hmi.write" => {
             if rng.bool() {
@@ -577,16 +577,16 @@ fn valid_params(rng: &mut Rng, ty: &str, eval_hang_ok: bool, rot: &mut u32) -> O
             1 => json!({"mode": "update"}),
             _ => json!({"mode": "reset", "style": "industrial"}),
         },
-        "historian.query" => json!({"variable": "speed", "limit": 5}),
-        "historian.alerts" => json!({"limit": 5}),
+        "historian.query" => json!({"variable": "speed", "limit": *rng.pick(&[5u64, 0, u64::MAX])}),
+        "historian.alerts" => json!({"limit": *rng.pick(&[5u64, 0, u64::MAX])}),
         "io.write" | "io.force" => json!({"address": *rng.pick(&["%IX0.0", "%IW2", "%QX1.3"]), "value": *rng.pick(&["TRUE", "FALSE", "5"])}),
         "io.unforce" => json!({"address": *rng.pick(&["%IX0.0", "%IW2", "%QX1.3"])}),
         "eval" => json!({"expr": *rng.pick(&["sentcounter", "speed", "nosuch"])}),
         "set" => json!({"target": *rng.pick(&["global:gsent", "retain:rsent", "global: spaced "]), "value": *rng.pick(&["5", "TRUE", "1.5"])}),
         "var.force" => json!({"target": *rng.pick(&["global:gsent", "retain:rsent", "instance:1:run"]), "value": *rng.pick(&["7", "FALSE"])}),
         "var.unforce" => json!({"target": *rng.pick(&["global:gsent", "retain:rsent", "instance:1:run"])}),
-        "debug.scopes" => json!({"frame_id": rng.range(0, 2)}),
-        "debug.variables" => json!({"variables_reference": rng.range(0, 3)}),
+        "debug.scopes" => json!({"frame_id": *rng.pick(&[0u64, 1, 2, u32::MAX as u64, u64::MAX])}),
+        "debug.variables" => json!({"variables_reference": *rng.pick(&[0u64, 1, 2, 3, u32::MAX as u64, u64::MAX])}),
         "debug.evaluate" => {
             if eval_hang_ok && rng.chance(1, 2) {
                 json!({"expression": *rng.pick(&["1 + 2", "speed", "sentcounter + 1"])})
@@ -1243,6 +1243,26 @@ impl Check for C18Check {
                             t.revoked = true;
                         }
                     }
+                }
+                // crash + restart right after the acknowledged revocation: a second store loaded from (a copy of)
+                // the pairing file, on the same clock, must not give a revoked or expired token a role again
+                let copy = w.pairing_path.with_extension("restart-copy.json");
+                let _ = std::fs::remove_file(&copy);
+                if std::fs::copy(&w.pairing_path, &copy).is_ok() {
+                    let clock = w.clock.clone();
+                    let reloaded = PairingStore::with_clock(copy.clone(), Arc::new(move || clock.load(Ordering::SeqCst)));
+                    let now = w.now();
+                    for t in &tokens {
+                        if (t.revoked || now > t.expires_at) && reloaded.validate_with_role(&t.token).is_some() {
+                            let _ = std::fs::remove_file(&copy);
+                            return Err(Violation::new(
+                                "pairing/revoked-token-valid-after-restart",
+                                format!("op {opi}: pair.revoke {:?} was acknowledged, but a pairing store reloaded from the file gives token id {} ({}) a role again", params.as_ref().map(|p| p["id"].clone()), t.id, if t.revoked { "revoked" } else { "expired" }),
+                            ));
+                        }
+                    }
+                    stats.inc("fault.restart_after_revocation");
+                    let _ = std::fs::remove_file(&copy);
                 }
             }
             let configured_after: Option<String> = w.state.auth_token.lock().unwrap().clone().map(|t| t.to_string());
